@@ -79,6 +79,13 @@ def simplexMethods : List String := ["Add", "Cardinality", "Clear", "Clone", "Or
 
 def binaryMethods : List String := ["And", "AndNot", "Or", "Xor"]
 
+/-- the two wrapper types of lock.go with their method sets and the methods that take an operand -/
+def wrapperKinds : List (String × List String × List String) :=
+  [("threadSafeDuplex", duplexMethods, binaryMethods), ("threadSafeSimplex", simplexMethods, ["Or"])]
+
+def methodsOf (wrapper : String) : List String := ((wrapperKinds.find? (·.1 == wrapper)).map (·.2.1)).getD []
+def operandMethodsOf (wrapper : String) : List String := ((wrapperKinds.find? (·.1 == wrapper)).map (·.2.2)).getD []
+
 def methodSetOk (tbl : List WrapperMethod) : Bool :=
   (tbl.filter (·.recv == "threadSafeDuplex")).map (·.name) == duplexMethods &&
   (tbl.filter (·.recv == "threadSafeSimplex")).map (·.name) == simplexMethods &&
@@ -95,14 +102,14 @@ def wrappersOk (snapshot : Bool) (tbl : List WrapperMethod) (cases : List Snapsh
    else tbl.all WrapperMethod.isLockDelegateUnlockOld && cases == [])
 
 /-- is method `name` of the duplex wrapper a lock-delegate-unlock body? (`false` if it is missing) -/
-def lockedIn (tbl : List WrapperMethod) (name : String) : Bool :=
-  match tbl.find? (fun m => m.recv == "threadSafeDuplex" && m.name == name) with
+def lockedIn (tbl : List WrapperMethod) (name : String) (wrapper : String := "threadSafeDuplex") : Bool :=
+  match tbl.find? (fun m => m.recv == wrapper && m.name == name) with
   | some m => m.isLockDelegateUnlock
   | none => false
 
 /-- does method `name` snapshot its operand before taking the lock? -/
-def snapshotsIn (tbl : List WrapperMethod) (name : String) : Bool :=
-  match tbl.find? (fun m => m.recv == "threadSafeDuplex" && m.name == name) with
+def snapshotsIn (tbl : List WrapperMethod) (name : String) (wrapper : String := "threadSafeDuplex") : Bool :=
+  match tbl.find? (fun m => m.recv == wrapper && m.name == name) with
   | some m => m.isLockDelegateUnlock && m.snapshotStmts == 1
   | none => false
 
